@@ -297,7 +297,7 @@ int sm4_gcm_decrypt_update(SM4_GCM_CTX *ctx, const uint8_t *in, size_t inlen, ui
 			return -1;
 		}
 		*outlen += len;
-		memcpy(ctx->mac, in + inlen, GHASH_SIZE);
+		memcpy(ctx->mac, in + inlen, ctx->taglen);
 	}
 
 	ctx->encedlen += inlen;
